@@ -528,10 +528,9 @@ class Interp:
         if name.startswith(('@llvm.lifetime', '@llvm.invariant', '@llvm.dbg', '@llvm.assume', '@llvm.experimental.noalias')): return None
         if name.startswith('@llvm.stacksave'): return NULL
         if name.startswith('@llvm.stackrestore'): return None
-        if name.startswith('@llvm.umax'): return s._minmax(a, 'ugt')
-        if name.startswith('@llvm.umin'): return s._minmax(a, 'ult')
-        if name.startswith('@llvm.smax'): return s._minmax(a, 'sgt')
-        if name.startswith('@llvm.smin'): return s._minmax(a, 'slt')
+        if name.startswith(('@llvm.umax', '@llvm.umin', '@llvm.smax', '@llvm.smin')):
+            mw = re.search(r'i(\d+)$', name); wd0 = int(mw.group(1)) if mw else 64
+            return s._minmax(a, {'umax': 'ugt', 'umin': 'ult', 'smax': 'sgt', 'smin': 'slt'}[name[6:10]], wd0)
         m_ = re.match(r'@llvm\.([us])(add|sub|mul)\.with\.overflow\.i(\d+)$', name)
         if m_ and not isinstance(a[0], list):
             sg_, op_, wd = m_.group(1), m_.group(2), int(m_.group(3)); x, y = a
@@ -609,9 +608,11 @@ class Interp:
         if name.startswith('@llvm.x86.avx2.maskload') or name.startswith('@llvm.x86.avx2.maskstore'):
             raise Unsupported(name)
         return NotImplemented
-    def _minmax(s, a, pred):
+    def _minmax(s, a, pred, wd0=None):
         x, y = a
-        c = icmp(pred, x, y, 64 if not (z3.is_expr(x) and z3.is_bv(x)) else x.size())
+        if isinstance(x, list): return [s._minmax((xi, yi), pred, wd0) for xi, yi in zip(x, y)]       # vector form (llvm.umin.v8i64 ...)
+        if isinstance(x, (FV, Half)) or isinstance(y, (FV, Half)): raise FieldWordOp('min/max of a field word')
+        c = icmp(pred, x, y, (wd0 or 64) if not (z3.is_expr(x) and z3.is_bv(x)) else x.size())
         if is_c(c): return x if c else y
         wd = x.size() if z3.is_expr(x) else y.size()
         return z3.If(c, tobv(x, wd), tobv(y, wd))
